@@ -37,6 +37,7 @@ import (
 	"git.metabarcoding.org/obitools/obitools4/obitools4/pkg/obitax"
 	"git.metabarcoding.org/obitools/obitools4/obitools4/pkg/obitools/obirefidx"
 	"git.metabarcoding.org/obitools/obitools4/obitools4/pkg/obitools/obitag2"
+	"git.metabarcoding.org/obitools/obitools4/obitools4/pkg/obiutils"
 	"git.metabarcoding.org/obitools/obitools4/obitools4/pkg/verifkit"
 	log "github.com/sirupsen/logrus"
 )
@@ -50,7 +51,8 @@ type c15case struct {
 	Refs   []string `json:"refs"`
 	Tree   int      `json:"tree"`
 	Taxa   []int    `json:"taxa,omitempty"` // taxid of each reference
-	SeqIdx int      `json:"seqidx"`         // reference indexed (part index)
+	SeqIdx int      `json:"seqidx"`         // reference indexed (part index); distance (matchidx); copies (manycand)
+	Keys   []int    `json:"keys,omitempty"` // recorded distances (part matchidx; Taxa = positions in the lineage)
 }
 
 // ---------------------------------------------------------------------------------------------
@@ -89,9 +91,83 @@ func c15lcs(a, b string) (lcs, ali int) {
 	return
 }
 
+// IUPAC codes as base sets (a=1, c=2, g=4, t=8); two symbols match when their sets intersect
+var c15iupac = map[byte]int{'a': 1, 'c': 2, 'g': 4, 't': 8, 'r': 5, 'y': 10, 's': 6, 'w': 9, 'k': 12, 'm': 3,
+	'b': 14, 'd': 13, 'h': 11, 'v': 7, 'n': 15}
+
+// c15lcsI is c15lcs with IUPAC-compatible symbols counted as matches (the definition of the LCS
+// kernel, property C09); written separately so that the plain oracle stays free of any table
+func c15lcsI(a, b string) (lcs, ali int) {
+	const big = 1 << 20
+	la, lb := len(a), len(b)
+	prev := make([]int, lb+1)
+	cur := make([]int, lb+1)
+	for j := 0; j <= lb; j++ {
+		prev[j] = -j
+	}
+	for i := 1; i <= la; i++ {
+		cur[0] = -i
+		for j := 1; j <= lb; j++ {
+			v := prev[j-1] - 1
+			if c15iupac[a[i-1]]&c15iupac[b[j-1]] != 0 {
+				v += big
+			}
+			if w := prev[j] - 1; w > v {
+				v = w
+			}
+			if w := cur[j-1] - 1; w > v {
+				v = w
+			}
+			cur[j] = v
+		}
+		prev, cur = cur, prev
+	}
+	v := prev[lb]
+	lcs = (v + big - 1) / big
+	ali = lcs*big - v
+	return
+}
+
+// c15lev is the byte-wise edit distance (what the one-difference test D1Or0 decides, property C09)
+func c15lev(a, b string) int {
+	prev := make([]int, len(b)+1)
+	cur := make([]int, len(b)+1)
+	for j := range prev {
+		prev[j] = j
+	}
+	for i := 1; i <= len(a); i++ {
+		cur[0] = i
+		for j := 1; j <= len(b); j++ {
+			v := prev[j-1]
+			if a[i-1] != b[j-1] {
+				v++
+			}
+			if w := prev[j] + 1; w < v {
+				v = w
+			}
+			if w := cur[j-1] + 1; w < v {
+				v = w
+			}
+			cur[j] = v
+		}
+		prev, cur = cur, prev
+	}
+	return prev[len(b)]
+}
+
 // own 4-mer model (only used to classify failures, to count interesting cases and to decide when the
-// input order of a database can influence the scan order)
+// input order of a database can influence the scan order); as the 4-mer tables of obikmer do, a symbol
+// other than a, c, g, t counts as 'a'
 func c15kmers(s string) map[string]int {
+	if strings.Trim(s, "acgt") != "" {
+		b := []byte(s)
+		for i, c := range b {
+			if c != 'a' && c != 'c' && c != 'g' && c != 't' {
+				b[i] = 'a'
+			}
+		}
+		s = string(b)
+	}
 	m := map[string]int{}
 	for i := 0; i+4 <= len(s); i++ {
 		m[s[i:i+4]]++
@@ -127,6 +203,8 @@ type c15pool struct {
 	twins map[[2]int]*obiseq.BioSequence
 	dq    []int // distance of every pool member to the query (oracle)
 	cwq   []int // 4-mers shared with the query (own model)
+	iupac bool  // sequences may hold ambiguity codes: distances by c15lcsI
+	lev   map[int]int
 }
 
 // finish precomputes the oracle distance and the shared 4-mer count of every member to the query
@@ -179,6 +257,9 @@ func (p *c15pool) dist(a, b int) (d, lcs, ali int) {
 		return int(v[1] - v[0]), int(v[0]), int(v[1])
 	}
 	l, al := c15lcs(p.seqs[a], p.seqs[b])
+	if p.iupac {
+		l, al = c15lcsI(p.seqs[a], p.seqs[b])
+	}
 	p.memo[k] = [2]int16{int16(l), int16(al)}
 	return al - l, l, al
 }
@@ -196,6 +277,19 @@ func (p *c15pool) twin(i, occ int) *obiseq.BioSequence {
 }
 
 func (p *c15pool) cw(a, b int) int { return c15common(p.km[a], p.km[b]) }
+
+// byte-wise edit distance of member i to the query, memoised
+func c15levMemo(p *c15pool, i int) int {
+	if p.lev == nil {
+		p.lev = map[int]int{}
+	}
+	if d, ok := p.lev[i]; ok {
+		return d
+	}
+	d := c15lev(p.seqs[0], p.seqs[i])
+	p.lev[i] = d
+	return d
+}
 
 func c15edits(s string) []string {
 	var out []string
@@ -450,6 +544,7 @@ type c15env struct {
 	cnt  []*obikmer.Table4mer
 	keys []int
 	dry  bool // VERIF_C15_DRY=1: count the cases of the space without running them (sizing only)
+	vc   map[string]int
 }
 
 func (e *c15env) mkcase(part string, p *c15pool, idxs []int, tree int, taxa []int, seqidx int) c15case {
@@ -493,6 +588,9 @@ func (e *c15env) evalFind(impl int, p *c15pool, idxs []int) {
 	got := c15callFind(impl, p.bs[0], e.refs, e.cnt)
 	r.Eval(1)
 	name := c15implName[impl]
+	if p.iupac {
+		name += "/ambiguous-bases"
+	}
 	// oracle
 	dmin := 1 << 30
 	for _, i := range idxs {
@@ -533,16 +631,102 @@ func (e *c15env) evalFind(impl int, p *c15pool, idxs []int) {
 		sb.WriteString("]")
 		return sb.String()
 	}
+	// sequences with ambiguity codes: what makes the answer wrong is part of the key. missing = position
+	// in idxs of a best reference that was not returned (-1: any reference at the minimal distance)
+	cause := func() string {
+		if !p.iupac {
+			return ""
+		}
+		// Replay the scan of FindClosests in its own order (decreasing number of shared 4-mers, ties as
+		// obiutils.IntOrder leaves them) under two switches: with / without the 4-mer cut-off (stop at
+		// the first candidate sharing fewer than len(query)-3-4*best 4-mers), and with the distances the
+		// code uses (IUPAC-aware LCS while the best distance is unknown or above 1, the byte-wise
+		// one-difference test afterwards) / with the IUPAC-aware distance throughout. The real answer is
+		// attributed to the switch(es) that reproduce it.
+		cw := make([]int, len(idxs))
+		for k, i := range idxs {
+			cw[k] = obikmer.Common4Mer(p.cnt[0], p.cnt[i])
+		}
+		order := obiutils.Reverse(obiutils.IntOrder(cw), true)
+		lq := len(p.seqs[0])
+		replay := func(cutoff, bytewise bool) bool {
+			maxe, wordmin := -1, 0
+			var bests []int
+			for _, k := range order {
+				i := idxs[k]
+				if cutoff && cw[k] < wordmin {
+					break
+				}
+				score, ok := 0, false
+				if bytewise && (maxe == 0 || maxe == 1) {
+					if l := c15levMemo(p, i); l <= 1 {
+						score, ok = l, true
+					}
+				} else if d := p.dq[i]; maxe == -1 || d <= maxe {
+					score, ok = d, true
+				}
+				if !ok {
+					continue
+				}
+				if maxe == -1 || score < maxe {
+					maxe, bests = score, bests[:0]
+					wordmin = max(0, lq-3-4*maxe)
+				}
+				if score == maxe {
+					bests = append(bests, k)
+				}
+			}
+			if maxe != got.maxe || len(bests) != len(got.idxs) {
+				return false
+			}
+			in := map[int]bool{}
+			for _, k := range got.idxs {
+				in[k] = true
+			}
+			for _, k := range bests {
+				if !in[k] {
+					return false
+				}
+			}
+			return true
+		}
+		byTest, byCut := replay(false, true), replay(true, false)
+		switch {
+		case byTest && !byCut:
+			return ":one-difference-test-is-byte-wise"
+		case byCut && !byTest:
+			return ":4-mer-cut-off-ignores-ambiguous-bases"
+		case byCut && byTest:
+			return ":4-mer-cut-off-or-byte-wise-one-difference-test"
+		case replay(true, true):
+			return ":4-mer-cut-off-and-byte-wise-one-difference-test"
+		}
+		return ":other"
+	}
+	viol := func(key string, extra string) {
+		if e.vc == nil {
+			e.vc = map[string]int{}
+		}
+		e.vc[key]++
+		if e.vc[key] > 3 {
+			r.Violate(key, "", nil) // counted; only the first records of a key are kept
+			return
+		}
+		r.Violate(key, desc()+extra, e.mkcase(c15implPart[impl], p, idxs, 0, nil, 0))
+	}
 	if got.panicked != "" {
-		r.Violate(name+"/panic", desc()+" panic: "+got.panicked, e.mkcase(c15implPart[impl], p, idxs, 0, nil, 0))
+		viol(name+"/panic", " panic: "+got.panicked)
 		return
 	}
 	if got.maxe != dmin {
 		cls := "wrong-distance"
 		if got.maxe > dmin {
 			cls = "missed-best"
+			if p.iupac {
+				cls = "missed-reference" // one class for a missed best and a missed tie: the cause is in the key
+			}
 		}
-		r.Violate(name+"/"+cls, desc(), e.mkcase(c15implPart[impl], p, idxs, 0, nil, 0))
+		viol(name+"/"+cls+cause(), "")
 		return
 	}
 	// set of returned positions
@@ -559,7 +743,7 @@ func (e *c15env) evalFind(impl int, p *c15pool, idxs []int) {
 		}
 	}
 	if bad {
-		r.Violate(name+"/inconsistent-result", desc()+" (bests and bestidxs disagree)", e.mkcase(c15implPart[impl], p, idxs, 0, nil, 0))
+		viol(name+"/inconsistent-result", " (bests and bestidxs disagree)")
 		return
 	}
 	lq := len(p.seqs[0])
@@ -568,6 +752,10 @@ func (e *c15env) evalFind(impl int, p *c15pool, idxs []int) {
 		switch {
 		case d == dmin && seen[k] == 0:
 			// a tied best reference is missing: classify
+			if p.iupac {
+				viol(name+"/missed-reference"+cause(), "")
+				return
+			}
 			cls := "other"
 			lm := len(p.seqs[i])
 			cwm := p.cwq[i]
@@ -580,13 +768,13 @@ func (e *c15env) evalFind(impl int, p *c15pool, idxs []int) {
 					}
 				}
 			}
-			r.Violate(name+"/missed-tie:"+cls, desc(), e.mkcase(c15implPart[impl], p, idxs, 0, nil, 0))
+			viol(name+"/missed-tie:"+cls, "")
 			return
 		case d != dmin && seen[k] > 0:
-			r.Violate(name+"/spurious-best", desc(), e.mkcase(c15implPart[impl], p, idxs, 0, nil, 0))
+			viol(name+"/spurious-best"+cause(), "")
 			return
 		case seen[k] > 1:
-			r.Violate(name+"/duplicated-best", desc(), e.mkcase(c15implPart[impl], p, idxs, 0, nil, 0))
+			viol(name+"/duplicated-best", "")
 			return
 		}
 	}
@@ -635,6 +823,10 @@ func (e *c15env) evalIndex(p *c15pool, idxs []int, ti int, taxa []int, s int) {
 		return
 	}
 	t := e.trees[ti]
+	site := "IndexSequence"
+	if p.iupac {
+		site += "/ambiguous-bases"
+	}
 	e.load(p, idxs)
 	set := make(obitax.TaxonSet, len(idxs))
 	for k := range idxs {
@@ -672,7 +864,7 @@ func (e *c15env) evalIndex(p *c15pool, idxs []int, ti int, taxa []int, s int) {
 		return sb.String()
 	}
 	if panicked != "" {
-		r.Violate("IndexSequence/panic", desc()+" panic: "+panicked, e.mkcase("index", p, idxs, ti, taxa, s))
+		r.Violate(site+"/panic", desc()+" panic: "+panicked, e.mkcase("index", p, idxs, ti, taxa, s))
 		return
 	}
 	lseq := len(p.seqs[idxs[s]])
@@ -701,11 +893,11 @@ func (e *c15env) evalIndex(p *c15pool, idxs []int, ti int, taxa []int, s int) {
 			id, err = strconv.Atoi(v[:at])
 		}
 		if at <= 0 || err != nil || strings.Count(v, "@") != 2 || k < 0 || k >= len(want) {
-			r.Violate("IndexSequence/malformed-entry", desc(), e.mkcase("index", p, idxs, ti, taxa, s))
+			r.Violate(site+"/malformed-entry", desc(), e.mkcase("index", p, idxs, ti, taxa, s))
 			return
 		}
 		if w := want[k]; id != w {
-			r.Violate("IndexSequence/wrong-lca", desc()+fmt.Sprintf(": distance %d is recorded with taxid %d, the LCA of the references within %d is %d", k, id, k, w),
+			r.Violate(site+"/wrong-lca", desc()+fmt.Sprintf(": distance %d is recorded with taxid %d, the LCA of the references within %d is %d", k, id, k, w),
 				e.mkcase("index", p, idxs, ti, taxa, s))
 			return
 		}
@@ -721,13 +913,13 @@ func (e *c15env) evalIndex(p *c15pool, idxs []int, ti int, taxa []int, s int) {
 		k := sort.SearchInts(keys, d+1) - 1
 		w := want[d]
 		if k < 0 {
-			r.Violate("IndexSequence/missing-distance", desc()+fmt.Sprintf(": no entry applies to distance %d (LCA %d)", d, w), e.mkcase("index", p, idxs, ti, taxa, s))
+			r.Violate(site+"/missing-distance", desc()+fmt.Sprintf(": no entry applies to distance %d (LCA %d)", d, w), e.mkcase("index", p, idxs, ti, taxa, s))
 			return
 		}
 		v := idx[keys[k]]
 		id, _ := strconv.Atoi(v[:strings.IndexByte(v, '@')])
 		if id != w {
-			r.Violate("IndexSequence/missing-distance", desc()+fmt.Sprintf(": the entry applying to distance %d gives taxid %d, the LCA of the references within %d is %d", d, id, d, w),
+			r.Violate(site+"/missing-distance", desc()+fmt.Sprintf(": the entry applying to distance %d gives taxid %d, the LCA of the references within %d is %d", d, id, d, w),
 				e.mkcase("index", p, idxs, ti, taxa, s))
 			return
 		}
@@ -826,6 +1018,92 @@ var c15queries = []string{
 	"tgcatgcaagtcca", "ggatccatgcaatc",
 }
 
+var c15lineage = []int{4, 3, 2, 1}
+
+// evalMatchIndex: index = keys[j] -> lineage[chain[j]]; see part A5
+func (e *c15env) evalMatchIndex(keys, chain []int, d int) {
+	r := e.r
+	idx := map[int]string{}
+	for j, kk := range keys {
+		idx[kk] = fmt.Sprintf("%d@taxon_%d@rank", c15lineage[chain[j]], c15lineage[chain[j]])
+	}
+	reach := 0
+	for j, kk := range keys {
+		if kk <= d {
+			reach = chain[j]
+		}
+	}
+	for impl := 0; impl < 2; impl++ {
+		got, panicked := 0, ""
+		func() {
+			defer func() {
+				if x := recover(); x != nil {
+					panicked = fmt.Sprint(x)
+				}
+			}()
+			if impl == 0 {
+				got, _, _ = MatchDistanceIndex(d, idx)
+			} else {
+				got, _, _ = obitag2.MatchDistanceIndex(d, idx)
+			}
+		}()
+		r.Eval(1)
+		name := []string{"MatchDistanceIndex", "obitag2.MatchDistanceIndex"}[impl]
+		where := "between-keys"
+		if _, ok := idx[d]; ok {
+			where = "distance-equal-to-a-key"
+		} else if d > keys[len(keys)-1] {
+			where = "beyond-the-last-key"
+		}
+		rc := c15case{Part: "matchidx", Keys: keys, Taxa: chain, SeqIdx: d}
+		if panicked != "" {
+			r.Violate(name+"/panic:"+where, fmt.Sprintf("%s(%d, %v): %s", name, d, idx, panicked), rc)
+			continue
+		}
+		pos := -1
+		for j, x := range c15lineage {
+			if x == got {
+				pos = j
+			}
+		}
+		if pos < reach {
+			r.Violate(name+"/not-ancestor-of-the-entry-in-reach:"+where, fmt.Sprintf("%s(%d, %v) = taxid %d; the references within %d have LCA %d (lineage 4<3<2<1)", name, d, idx, got, d, c15lineage[reach]), rc)
+		} else if pos > reach {
+			r.Count("match_distance_index_vaguer_than_the_entry_in_reach", 1)
+		}
+	}
+}
+
+// evalManyCandidates: n copies of a reference at distance 2 sharing every 4-mer of the query, then one
+// reference at distance 1 sharing fewer; see part A6
+func (e *c15env) evalManyCandidates(n int) {
+	r := e.r
+	q := "acgtgcatggatcc"
+	far, near := q+"tt", q[:7]+"a"+q[8:]
+	qs := obiseq.NewBioSequence("query", []byte(q), "")
+	refs := obiseq.MakeBioSequenceSlice()
+	var cnt []*obikmer.Table4mer
+	for i := 0; i <= n; i++ {
+		s := far
+		if i == n {
+			s = near
+		}
+		b := obiseq.NewBioSequence("r"+strconv.Itoa(i), []byte(s), "")
+		refs = append(refs, b)
+		cnt = append(cnt, obikmer.Count4Mer(b, nil, nil))
+	}
+	for impl := 0; impl < 2; impl++ {
+		got := c15callFind(impl, qs, refs, cnt)
+		r.Eval(1)
+		rc := c15case{Part: "manycand", SeqIdx: n}
+		if got.panicked != "" {
+			r.Violate(c15implName[impl]+"/panic", fmt.Sprintf("%d references: %s", n+1, got.panicked), rc)
+		} else if got.maxe != 1 || len(got.idxs) != 1 || got.idxs[0] != n {
+			r.Violate(c15implName[impl]+"/missed-best:more-than-1001-candidates", fmt.Sprintf("%s(query=%s, refs=[%d x %s (d=2, every 4-mer of the query), %s (d=1)]): got distance=%d bests=%d references, want distance=1 bests=[%d]", c15implName[impl], q, n, far, near, got.maxe, len(got.idxs), n), rc)
+		}
+	}
+}
+
 func TestVerifC15(t *testing.T) {
 	log.SetOutput(io.Discard)
 	r := verifkit.New("C15")
@@ -840,9 +1118,20 @@ func TestVerifC15(t *testing.T) {
 		if err := json.Unmarshal(rc, &c); err != nil {
 			t.Fatal(err)
 		}
+		switch c.Part {
+		case "matchidx":
+			e.evalMatchIndex(c.Keys, c.Taxa, c.SeqIdx)
+			return
+		case "manycand":
+			e.evalManyCandidates(c.SeqIdx)
+			return
+		}
 		p := c15newPool(c.Query)
 		if c.Query == "" { // index cases do not need a query
 			p = c15newPool(c.Refs[0])
+		}
+		if strings.Trim(c.Query+strings.Join(c.Refs, ""), "acgt") != "" {
+			p.iupac = true
 		}
 		idxs := make([]int, len(c.Refs))
 		for k, s := range c.Refs {
@@ -906,6 +1195,185 @@ func TestVerifC15(t *testing.T) {
 			k++
 		}
 	})
+	// ---- part A4: ambiguity codes. The LCS kernel matches IUPAC-compatible symbols, the 4-mer tables
+	// count every code as 'a', the one-difference test compares bytes. (a) queries = a base sequence with
+	// 'n' at every position and every pair of positions, and every other code (r y s w k m b d h v) at
+	// every position; databases = every ordered pair of P1(base) (plain references). (b) the plain base
+	// as the query; databases = every ordered pair {ambiguous variant of the base, member of P1(base)}.
+	timed("find_iupac", func() {
+		bases := []string{"tgcatgcaagtcca"}
+		if fullTier {
+			bases = append(bases, "gctagctaacgt", "acgtgcat")
+		}
+		for _, q0 := range bases {
+			// quick: 'n' at every position and pair of positions, the other codes at positions 0, 1,
+			// L/2 and L-1; thorough: every code at every position
+			var variants []string
+			for i := 0; i < len(q0); i++ {
+				for _, c := range "nryswkmbdhv" {
+					if c == 'n' || fullTier || i <= 1 || i == len(q0)/2 || i == len(q0)-1 {
+						variants = append(variants, q0[:i]+string(c)+q0[i+1:])
+					}
+				}
+				for j := i + 1; j < len(q0); j++ {
+					variants = append(variants, q0[:i]+"n"+q0[i+1:j]+"n"+q0[j+1:])
+				}
+			}
+			plain := c15buildPool(q0, true)
+			// plain references: P1(base) + the double edits of P0(base) (a reference at distance 2 scanned
+			// first is what lets the 4-mer cut-off drop a closer reference on its own)
+			refs := append([]string{}, plain.seqs[:plain.n1]...)
+			for _, i := range plain.p0 {
+				if i >= plain.n1 {
+					refs = append(refs, plain.seqs[i])
+				}
+			}
+			// (a) ambiguous query, plain references
+			for _, qa := range variants {
+				if r.Mine(k) {
+					p := c15newPool(qa)
+					p.iupac = true
+					for _, s := range refs {
+						p.addDup(s)
+					}
+					p.finish()
+					r.State("iupac-query:" + qa)
+					n := len(p.seqs)
+					for impl := 0; impl < 2; impl++ {
+						for a := 1; a < n; a++ {
+							// quick, obitag2 (a near copy): the first member among the query, its
+							// substitutions and the foreign sequences only
+							if impl == 1 && !fullTier && len(p.seqs[a]) != len(qa) {
+								continue
+							}
+							for b := 1; b < n; b++ {
+								if a == b {
+									continue
+								}
+								scratch[0], scratch[1] = a, b
+								e.evalFind(impl, p, scratch[:2])
+								if p.dq[a] != c15levMemo(p, a) || p.dq[b] != c15levMemo(p, b) {
+									r.Count("find_iupac_match_through_an_ambiguity_code", 1)
+								}
+							}
+						}
+					}
+				}
+				k++
+			}
+			// (b) plain query, one ambiguous reference
+			if r.Mine(k) {
+				p := c15newPool(q0)
+				p.iupac = true
+				for _, s := range refs[1:] {
+					p.addDup(s)
+				}
+				np := len(p.seqs)
+				for _, s := range variants {
+					p.addDup(s)
+				}
+				p.finish()
+				for impl := 0; impl < 2; impl++ {
+					for a := np; a < len(p.seqs); a++ {
+						for b := 1; b < np; b++ {
+							scratch[0], scratch[1] = a, b
+							e.evalFind(impl, p, scratch[:2])
+							scratch[0], scratch[1] = b, a
+							e.evalFind(impl, p, scratch[:2])
+						}
+					}
+				}
+			}
+			k++
+			// (c) IndexSequence: databases {ambiguous variant of the base, two members of a sub-pool of
+			// P0(base)}, every assignment to one node per LCA level of the caterpillar, every member indexed
+			var sub []int
+			for j := 0; j < len(plain.p0); j += 4 {
+				sub = append(sub, plain.p0[j])
+			}
+			for _, va := range variants {
+				if !fullTier && strings.Trim(va, "acgtn") != "" {
+					continue // quick: 'n' only
+				}
+				if r.Mine(k) {
+					p := c15newPool(q0)
+					p.iupac = true
+					for _, i := range sub {
+						p.addDup(plain.seqs[i])
+					}
+					v := p.addDup(va)
+					p.finish()
+					for a := 1; a < v; a++ {
+						for b := a; b < v; b++ {
+							scratch[0], scratch[1], scratch[2] = v, a, b
+							c15forAssign(leaves, 3, func(taxa []int) {
+								for s := 0; s < 3; s++ {
+									e.evalIndex(p, scratch[:3], 0, taxa, s)
+								}
+							})
+						}
+					}
+				}
+				k++
+			}
+			if r.Expired() {
+				return
+			}
+		}
+	})
+	// ---- part A5: MatchDistanceIndex (obitag and its copy in obitag2) on every index over a lineage
+	// 4 < 3 < 2 < 1: recorded distances = every subset of {0..5} holding 0, taxa = every strictly
+	// ascending sub-chain of the lineage, every distance 0..7 (equal to a key, between keys, beyond the
+	// last key). The taxon returned must be an ancestor-or-self of the entry in reach (largest recorded
+	// distance <= d): the LCA of the references within d.
+	timed("match_distance_index", func() {
+		if !r.Mine(k) {
+			k++
+			return
+		}
+		k++
+		for mask := 0; mask < 32; mask++ {
+			keys := []int{0}
+			for b := 0; b < 5; b++ {
+				if mask&(1<<b) != 0 {
+					keys = append(keys, b+1)
+				}
+			}
+			if len(keys) > len(c15lineage) {
+				continue
+			}
+			for cm := 1; cm < 16; cm++ {
+				var chain []int
+				for b := 0; b < 4; b++ {
+					if cm&(1<<b) != 0 {
+						chain = append(chain, b)
+					}
+				}
+				if len(chain) != len(keys) {
+					continue
+				}
+				for d := 0; d <= 7; d++ {
+					e.evalMatchIndex(keys, chain, d)
+				}
+			}
+		}
+	})
+	// ---- part A6: more candidates than any fixed cap: 1000 and 1001 copies of a reference at distance 2
+	// sharing every 4-mer of the query, then one reference at distance 1 sharing fewer
+	timed("find_many_candidates", func() {
+		if !r.Mine(k) {
+			k++
+			return
+		}
+		k++
+		for _, n := range []int{1000, 1001} {
+			e.evalManyCandidates(n)
+		}
+	})
+	if os.Getenv("VERIF_C15_ONLY") == "front" { // development aid: parts A0 and A4 only
+		r.Cap("VERIF_C15_ONLY=front: only the short-sequence and ambiguity-code parts were run")
+		return
+	}
 	// The thorough tier first runs the quick scope on every query (pass 0), then the wider scope
 	// (pass 1, a superset): a run cut by the deadline has still covered every query.
 	passes := []bool{false}
@@ -1138,6 +1606,7 @@ func TestVerifC15(t *testing.T) {
 		}
 	}
 	r.RequireNonVacuous("find_ties")
+	r.RequireNonVacuous("find_iupac_match_through_an_ambiguity_code")
 	r.RequireNonVacuous("find_longer_best_and_low_kmer_tie")
 	r.RequireNonVacuous("index_multi_level")
 	r.RequireNonVacuous("identify_below_root")
